@@ -59,9 +59,23 @@ def insertDesc (e : Entry) : List Entry → List Entry
 
 def sortDesc (l : List Entry) : List Entry := l.foldr insertDesc []
 
-/-- `setFinalizer(o, p.goFinalizer)` -/
+/-- `runtime.SetFinalizer(o, p.goFinalizer)`: the Go runtime THROWS (`fatal`) if `o` already has a finaliser -/
 def register (p : Pool) (o : Obj) : Pool :=
   if p.goReg.contains o then { p with fatal := true } else { p with goReg := o :: p.goReg }
+
+/-- `runtime.SetFinalizer(o, nil)`: always allowed -/
+def clearFinalizer (p : Pool) (o : Obj) : Pool :=
+  { p with goReg := p.goReg.filter (fun x => x != o) }
+
+/-- a NEW registration in `Mark` (`!ok`): "a pool that no longer exists may have left its finalizer on v":
+    clear, then set -/
+def registerNew (p : Pool) (o : Obj) : Pool := register (clearFinalizer p o) o
+
+/-- `(*ClonePool).Marked`: is the key in the register? (false for the nil register of a released pool) -/
+def marked (p : Pool) (k : Nat) : Bool :=
+  match p.reg with
+  | none => false
+  | some rg => (regLookup rg k).isSome
 
 /-- `(*ClonePool).Mark`; `f = r = false` is `flags == 0` (unmark) -/
 def mark (p : Pool) (o : Obj) (f r : Bool) : Pool :=
@@ -78,10 +92,10 @@ def mark (p : Pool) (o : Obj) (f r : Bool) : Pool :=
     match p.reg with
     | none =>
       -- ok = false: setFinalizer, Clone, lastMarkOrder++ all happen, then the map assignment panics
-      let p1 := register p o
+      let p1 := registerNew p o
       { p1 with last := p.last + 1, panics := p.panics + 1 }
     | some rg =>
-      let p1 := if (regLookup rg o.key).isNone then register p o else p
+      let p1 := if (regLookup rg o.key).isNone then registerNew p o else p
       let n := p.last + 1
       let e : Entry := { val := { key := o.key, id := n, clone := true, pool := p.pid }, order := n, fin := !f, rel := !r }
       { p1 with last := n, reg := some (regErase rg o.key ++ [e]), tr := p1.tr ++ [.mark o.key n f r] }
